@@ -184,6 +184,77 @@ func scanShared(c *core.Ctx) []ob {
 			}
 			return true
 		})
+		// (share, whole copy) `return recv` / `c := recv; …; return c`: every field not reassigned is handed over as it is
+		{
+			copies := map[types.Object]bool{}
+			if recv != nil {
+				copies[recv] = true
+			}
+			ast.Inspect(cc.fd.Body, func(n ast.Node) bool {
+				if as, ok := n.(*ast.AssignStmt); ok && len(as.Lhs) == len(as.Rhs) {
+					for i, l := range as.Lhs {
+						id, ok := l.(*ast.Ident)
+						if !ok {
+							continue
+						}
+						r := unparen(as.Rhs[i])
+						if st, ok := r.(*ast.StarExpr); ok {
+							r = unparen(st.X)
+						}
+						if rid, ok := r.(*ast.Ident); ok && recv != nil && info.Uses[rid] == recv {
+							if o := info.Defs[id]; o != nil {
+								copies[o] = true
+							}
+						}
+					}
+				}
+				return true
+			})
+			whole := false
+			ast.Inspect(cc.fd.Body, func(n ast.Node) bool {
+				if ret, ok := n.(*ast.ReturnStmt); ok {
+					for _, r := range ret.Results {
+						r = unparen(r)
+						if u, ok := r.(*ast.UnaryExpr); ok && u.Op == token.AND {
+							r = unparen(u.X)
+						}
+						if id, ok := r.(*ast.Ident); ok && copies[info.Uses[id]] {
+							whole = true
+						}
+					}
+				}
+				return true
+			})
+			if whole {
+				reassigned := map[string]bool{}
+				ast.Inspect(cc.fd.Body, func(n ast.Node) bool {
+					if as, ok := n.(*ast.AssignStmt); ok {
+						for _, l := range as.Lhs {
+							if se, ok := unparen(l).(*ast.SelectorExpr); ok {
+								if id, ok := unparen(se.X).(*ast.Ident); ok && copies[info.Uses[id]] {
+									reassigned[se.Sel.Name] = true
+								}
+							}
+						}
+					}
+					return true
+				})
+				for i := 0; i < cc.st.NumFields(); i++ {
+					f := cc.st.Field(i)
+					if reassigned[f.Name()] || !hasPointers(f.Type(), 0) {
+						continue
+					}
+					nShare++
+					key := fmt.Sprintf("SHARED:%s#field=%s", fkey, f.Name())
+					if m, isMut := mut[cc.named.Origin().Obj()][f.Name()]; isMut {
+						out = append(out, withProps(violOb("SHARED", key, c.Rel(cc.fd.Pos()),
+							fmt.Sprintf("%s returns a copy of the whole receiver and never reassigns %s: the copy has the same %s as the original although %s stores through that field (%s at %s): two goroutines, each confined to its own copy, race on it", fkey, f.Name(), types.TypeString(f.Type(), func(p *types.Package) string { return p.Name() }), m.fn, m.how, c.Rel(m.pos))), props...))
+					} else {
+						out = append(out, withProps(okOb("SHARED", key, c.Rel(cc.fd.Pos()), "shared by the whole-struct copy and never stored through by a method of the type", true), props...))
+					}
+				}
+			}
+		}
 	}
 	c.Stats["shared_fields"] = nShare
 	c.Stats["shared_ctors"] = nCtor
